@@ -75,6 +75,17 @@ def after_crash(world, ctx):
     world.nontrivial.add((k, f.fired if f else None,
                           "old" if s is states[0] else "new",
                           len(ctx["pre_model"].points)))
+    # what the interrupted operation amounted to (for the fault-free control)
+    if s is states[0]:
+        world.control_plan[i] = ("drop", "reopen")
+    elif s is states[-1] and not s.same_state(states[0]):
+        world.control_plan[i] = ("keep", "reopen")
+        if k == "insert_multiple" and len(states) > 2:
+            world.control_plan[i] = ("keep", "reopen")
+    if k == "insert_multiple" and s is not states[0] and s is not states[-1]:
+        world.control_plan[i] = (
+            "prefix", "reopen",
+            len(s.points) - len(ctx["pre_model"].points))
     # 2. it can be opened again and used
     world.model = s.copy()
     world.db = None
@@ -109,6 +120,7 @@ def after_io_fault(world, ctx):
     f = [x for x in ctx["fired"] if x.mode in ("pre", "post")][0]
     world.probe("ioerror-injected")
     world.evals += 1
+    world.control_plan.setdefault(i, ("either",))
     if world.prop == "C06":
         # C06 binds error paths too: whatever the failed call left behind,
         # an index that claims to be valid must equal a rebuild
@@ -172,7 +184,15 @@ def after_io_fault(world, ctx):
         world.fail_hard(owners, "ioerror-file-undecodable",
                    "after %s %s failed at %s the file does not decode: %s"
                    % (k, _brief(op), site, e), i)
-    if match_state(actual, states) is None:
+    on_disk = match_state(actual, states)
+    if on_disk is not None and k in REWRITES:
+        # a rewrite stages everything in a temp file: what the primary file
+        # holds now is what the failed operation amounted to
+        if on_disk is states[0]:
+            world.control_plan[i] = ("drop",)
+        elif on_disk is states[-1]:
+            world.control_plan[i] = ("keep",)
+    if on_disk is None:
         world.fail_hard(owners, "ioerror-file-neither-old-nor-new",
                    "after %s %s failed at %s the file holds %d points: %s"
                    % (k, _brief(op), site, len(actual),
@@ -195,6 +215,11 @@ def after_io_fault(world, ctx):
         s = match_state(actual, states)
         states = [s]
     if len(states) == 1:
+        if out.kind == "ret" and k not in READS:
+            world.control_plan[i] = ("keep",)
+        elif states[0] is ctx["pre_model"] or \
+                states[0].same_state(ctx["pre_model"]):
+            world.control_plan[i] = ("drop",)
         world.model = states[0]
         world.admissible = None
         if k in ("reopen", "close") and out.kind == "exc":
@@ -211,7 +236,19 @@ def after_io_fault(world, ctx):
                            "cannot reopen after failed %s: %r"
                            % (k, o2.exc), i)
         return
-    world.admissible = [s.copy() for s in states]
+    world.admissible = []
+    for n, st in enumerate(states):
+        c = st.copy()
+        # what the failed operation amounted to in this member
+        if n == 0:
+            c.lineage = ("drop",)
+        elif n == len(states) - 1:
+            c.lineage = ("keep",)
+        else:
+            c.lineage = ("prefix", "x",
+                         len(st.points) - len(ctx["pre_model"].points))
+        world.admissible.append(c)
+    world.io_fault_op = i
     world.probe("admissible-set-opened")
 
 
@@ -256,6 +293,7 @@ def judge_degraded(world, ctx):
             from .world import Foreign
             raise Foreign({"-"}, "admissible-overflow", "", i)
         world.admissible = uniq
+        _resolve_lineage(world, uniq)
         return
     if not matched:
         world.fail_hard(owners, "wrong-answer-after-ioerror",
@@ -268,6 +306,7 @@ def judge_degraded(world, ctx):
         if not any(s.same_state(u) for u in uniq):
             uniq.append(s)
     world.admissible = uniq
+    _resolve_lineage(world, uniq)
     if k == "reopen":
         # (d) collapse to what the file holds
         try:
@@ -284,11 +323,23 @@ def judge_degraded(world, ctx):
                           describe(actual, uniq)), i)
         world.model = s
         world.admissible = None
+        _resolve_lineage(world, [s])
         world.probe("admissible-set-collapsed")
         return
     if len(uniq) == 1 and k in READS and k in ("all", "iter") and \
             op.get("m") is None and op.get("take") is None:
         pass
+
+
+def _resolve_lineage(world, members):
+    """Once every remaining admissible state descends from the same outcome
+    of the failed operation, the fault-free control knows what to replay."""
+    lin = {getattr(m, "lineage", None) for m in members}
+    i = getattr(world, "io_fault_op", None)
+    if i is not None and len(lin) == 1:
+        one = next(iter(lin))
+        if one is not None:
+            world.control_plan[i] = one
 
 
 def _short(v):
